@@ -20,9 +20,7 @@ statement or expression form, *args/**kwargs, decorators other than
 lru_cache(...), a local that shadows a global, an import that moved - raises:
 the translator fails closed and the proof obligations break.
 
-Not translated (not on the path from a text to its graphs): `join` (functools.reduce over *args),
-__eq__/__hash__/__repr__ of the classes (the element equality of `set` /
-`dict.fromkeys` is the model's `Forest.graphEq`, tied by the correspondence runs),
+Not translated here: __eq__/__hash__ of the classes (translate/eqrows.py reads them as rows), __repr__,
 exception messages (the argument of `raise X(...)` is dropped), docstrings.
 """
 import ast
@@ -40,7 +38,7 @@ MODULES = [
      ["_handle_series", "_handle_parallel", "_handle_trait", "_handle_anytrait", "_handle_metadata", "_handle_items",
       "_handle_tree", "parse", "compile_str"], {}),
     ("expression", "expression.py",
-     ["dict_items", "list_items", "match", "anytrait", "metadata", "set_items", "trait", "compile_expr"],
+     ["join", "dict_items", "list_items", "match", "anytrait", "metadata", "set_items", "trait", "compile_expr"],
      {"ObserverExpression": EXPR_METHODS,
       "SingleObserverExpression": ["__init__", "_create_graphs"],
       "SeriesObserverExpression": ["__init__", "_create_graphs"],
@@ -134,16 +132,22 @@ class FuncTranslator:
         self.mod, self.mods, self.node, self.where = mod, mods, node, where
         self.locals = set()
         a = node.args
-        if a.vararg or a.kwarg or a.posonlyargs:
-            raise Unsupported("%s: *args / **kwargs / positional-only parameters" % where)
-        for p in a.args + a.kwonlyargs:
+        if a.kwarg or a.posonlyargs:
+            raise Unsupported("%s: **kwargs / positional-only parameters" % where)
+        for p in a.args + a.kwonlyargs + ([a.vararg] if a.vararg else []):
             self.locals.add(p.arg)
         for n in ast.walk(node):
             if isinstance(n, ast.Name) and isinstance(n.ctx, ast.Store):
                 self.locals.add(n.id)
             elif isinstance(n, ast.ExceptHandler) and n.name:
                 self.locals.add(n.name)
-            elif isinstance(n, (ast.Lambda, ast.ListComp, ast.GeneratorExp, ast.SetComp, ast.DictComp, ast.Global,
+            elif isinstance(n, ast.Lambda):
+                la = n.args
+                if len(la.args) != 2 or la.vararg or la.kwarg or la.kwonlyargs or la.defaults or la.posonlyargs:
+                    raise Unsupported("%s: lambda that is not `lambda x, y: ...`" % where)
+                if {p.arg for p in la.args} & self.locals:
+                    raise Unsupported("%s: lambda parameter shadows a local" % where)
+            elif isinstance(n, (ast.ListComp, ast.GeneratorExp, ast.SetComp, ast.DictComp, ast.Global,
                                 ast.Nonlocal, ast.FunctionDef, ast.ClassDef)) and n is not node:
                 raise Unsupported("%s: nested scope" % where)
         for x in self.locals:
@@ -206,6 +210,8 @@ class FuncTranslator:
             if isinstance(e.value, ast.Name) and e.value.id not in self.locals:
                 base = e.value.id
                 alias = self.mod.module_aliases.get(base)
+                if alias == "functools" and e.attr == "reduce":
+                    return "(.builtin \"functools.reduce\")"
                 if alias is not None:
                     if alias not in self.mods:
                         self.bad(e, "attribute of module %s" % alias)
@@ -252,6 +258,25 @@ class FuncTranslator:
             if isinstance(e.slice, ast.Slice) or not isinstance(e.ctx, ast.Load):
                 self.bad(e, "slice / store subscript")
             return "(.subscript %s %s)" % (self.expr(e.value), self.expr(e.slice))
+        if isinstance(e, ast.Lambda):
+            x, y = [p.arg for p in e.args.args]
+            # the body may only mention its own parameters and globals: no closure over locals
+            for n in ast.walk(e.body):
+                if isinstance(n, ast.Name) and n.id in self.locals:
+                    self.bad(e, "lambda refers to the local %s" % n.id)
+                if isinstance(n, ast.Lambda):
+                    self.bad(e, "nested lambda")
+            if x == y or any(v in BUILTINS or v in self.mod.funcs or v in self.mod.classes
+                             or v in self.mod.imported_classes or v in self.mod.module_aliases
+                             or v in self.mod.prims for v in (x, y)):
+                self.bad(e, "lambda parameter shadows a global")
+            saved = self.locals
+            self.locals = {x, y}
+            try:
+                body = self.expr(e.body)
+            finally:
+                self.locals = saved
+            return "(.lam2 %s %s %s)" % (_s(x), _s(y), body)
         if isinstance(e, ast.Dict):
             kws = []
             for k, v in zip(e.keys, e.values):
@@ -367,7 +392,9 @@ class FuncTranslator:
     def emit(self):
         self.decorators()
         body = self.stmts(self.node.body, top=True)
-        return "{ params := %s,\n      body := [\n        %s] }" % (self.params(), ",\n        ".join(body))
+        va = self.node.args.vararg
+        return "{ params := %s,%s\n      body := [\n        %s] }" % (
+            self.params(), ("\n      vararg := some %s," % _s(va.arg)) if va else "", ",\n        ".join(body))
 
 
 def emit(traits_dir):
